@@ -577,6 +577,51 @@ pub fn run_c16(tier: Tier, rep: &mut Report) {
         if format!("{a}") != format!("0x{}..{}", &hexs[..4], &hexs[60..]) {
             bad("Display is not 0x + first two bytes .. last two bytes", format!("{a}"), rj.clone());
         }
+        // formatting flags must not change what is printed; other serde_json entry points must agree
+        for (l, got, want) in [
+            ("{:#?}", format!("{a:#?}"), format!("0x{hexs}")),
+            ("{:80?}", format!("{a:80?}"), format!("0x{hexs}")),
+            ("{:.4?}", format!("{a:.4?}"), format!("0x{hexs}")),
+            ("{:#}", format!("{a:#}"), format!("0x{}..{}", &hexs[..4], &hexs[60..])),
+            ("{:>40}", format!("{a:>40}"), format!("0x{}..{}", &hexs[..4], &hexs[60..])),
+            ("{:.3}", format!("{a:.3}"), format!("0x{}..{}", &hexs[..4], &hexs[60..])),
+            ("to_string()", a.to_string(), format!("0x{}..{}", &hexs[..4], &hexs[60..])),
+        ] {
+            if got != want {
+                bad(&format!("formatting with {l} changes the printed id"), got, rj.clone());
+            }
+        }
+        {
+            let want_js = format!("\"0x{hexs}\"");
+            let via_value = serde_json::to_value(&a).ok();
+            if via_value != Some(serde_json::Value::String(format!("0x{hexs}"))) {
+                bad("serde_json::to_value is not the string 0x + 64 hex digits", format!("{via_value:?}"), rj.clone());
+            }
+            if serde_json::to_vec(&a).ok() != Some(want_js.clone().into_bytes()) {
+                bad("serde_json::to_vec is not the JSON string 0x + 64 hex digits", String::new(), rj.clone());
+            }
+            let ok = |r: Result<NodeId, serde_json::Error>| matches!(r, Ok(d) if d.raw() == raw);
+            if !ok(serde_json::from_value::<NodeId>(serde_json::Value::String(format!("0x{hexs}")))) {
+                bad("serde_json::from_value rejects or changes the id's own JSON value", String::new(), rj.clone());
+            }
+            if !ok(serde_json::from_slice::<NodeId>(want_js.as_bytes())) {
+                bad("serde_json::from_slice rejects or changes the id's own JSON string", String::new(), rj.clone());
+            }
+            if !ok(serde_json::from_reader::<_, NodeId>(want_js.as_bytes())) {
+                bad("serde_json::from_reader rejects or changes the id's own JSON string", String::new(), rj.clone());
+            }
+            // an escaped spelling of the same JSON string (forces an owned string in the deserialiser)
+            let escaped = format!("\"\\u0030x{hexs}\"");
+            if !ok(serde_json::from_str::<NodeId>(&escaped)) {
+                bad("serde_json::from_str rejects or changes an escaped spelling of the id's own JSON string", String::new(), rj.clone());
+            }
+            // as a map key (the crate's own use in tests): serialises as the same string
+            let mut m = std::collections::HashMap::new();
+            m.insert(a, 1u8);
+            if serde_json::to_string(&m).ok() != Some(format!("{{\"0x{hexs}\":1}}")) {
+                bad("as a JSON map key the id is not 0x + 64 hex digits", String::new(), rj.clone());
+            }
+        }
         for (l, s) in [
             ("0x lower", format!("0x{hexs}")),
             ("bare lower", hexs.clone()),
